@@ -860,7 +860,7 @@ def rule_instance(ctx):
                             t["sp"]["file"], t["sp"]["line"])
             else:
                 res.inst(ikey, t["sp"]["file"], t["sp"]["line"], "ok", "instance established on every path")
-    res.require_floor(6)
+    res.require_floor(3)
     return res
 
 
@@ -922,7 +922,12 @@ def rule_tyrule(ctx):
         def hook(I, p, fr, t, args):
             n = t.get("callee_name")
             ck = t.get("callee_key") or ""
-            if n == "check" and t.get("callee_trait") == "fun::typing::check::Check" and fr.f["key"] == key:
+            def symbolic_term(v_):
+                v_ = I.deref(v_)
+                if isinstance(v_, Adt) and v_.path == "core::option::Option" and v_.variant == "Some":
+                    v_ = I.deref(v_.fields["0"])
+                return isinstance(v_, Sym)
+            if n == "check" and t.get("callee_trait") == "fun::typing::check::Check" and (fr.f["key"] == key or (args and symbolic_term(args[0]) and len(args) >= 4)):
                 v = I.deref(args[0])
                 if isinstance(v, Adt) and v.path == "core::option::Option":
                     if v.variant == "None":
@@ -959,7 +964,7 @@ def rule_tyrule(ctx):
         for tn, tv in fields.get("__table__", {}).items():
             st_fields[tn] = tv
         st = Adt("fun::typing::symbol_table::SymbolTable", "SymbolTable", st_fields)
-        I = Interp(fx, hooks=[hook], max_depth=4, max_paths=64)
+        I = Interp(fx, hooks=[hook], max_depth=8, max_paths=64)
         outs = I.run(f, [Adt(adt, A["variants"][0]["name"], vals), st, base_ctx(), fields.get("__expected__", decl("EXP"))])
         normal = [o for o in outs if not getattr(o, "diverged", None)]
         msg = None if (several and normal) else backend.fold_verdict(outs, "R-TYRULE: %s" % form)
